@@ -20,6 +20,14 @@ CLAIMED = {
      text='The residual of each block row of the linear system assembled by calculate_r2 is proved identical to the corresponding O(r^2) differential equation written independently in full form, for every index type, every linear differentiation operator (so every grid size and matrix) and every input; the two algebraic constraints and the closed forms of G2, beta_1s and the B20 statistics are proved identically. A dropped or mis-signed from_X20/from_Y20/inhomogeneous piece, a wrong block, iota vs iotaN, or a changed closed form breaks the proof.',
      note='Assumed: np.linalg.solve returns a solution of the assembled system (its residual is measured on every correspondence case). Not proved: size of the float residual relative to conditioning. Trusted: Coq kernel, 3 Reals axioms, translator (validated each run), the hand-written spec props/C04_spec.v.',
      ref='DESIGN.md section 6 C04'),
+ 'C02': dict(level='proof', technique='Coq: control-model theorems for newton() (state machine over the stream of residual norms, NaN included) tied to the code by trace correspondence evaluated inside Coq with PrimFloat; ring proof of Jacobian exactness and of the sigma0 pin on the programs regenerated from _residual/_jacobian/solve_sigma_equation',
+     text='Theorems: the Newton driver returns x0 or an accepted strictly-decreasing iterate and, absent a warning, the returned residual is <= 1e4*tol (for every stream of norms, NaN included); the Jacobian handed to the solver is the exact derivative of the residual at every state (polynomial identity in eps for every linear differentiation operator); sigma[0] = sigma0 and iotaN = iota + helicity*nfp. The NaN-silent path of the original code was found by the model, reproduced on the real code and fixed.',
+     note='Unproved clause: agreement of iota with a shooting solution of the continuous ODE as nphi grows (convergence theorem for collocation). Hypotheses of the Newton theorems: IEEE comparison is transitive/irreflexive (checked on a float sample, not proved for PrimFloat). The Newton model is hand-written; its tie to the code is the decision-by-decision trace correspondence run on every check.',
+     ref='DESIGN.md section 6 C02'),
+ 'C20': dict(level='proof', technique='Coq theorems on hand-written executable models (list model of spectral_diff_matrix, stream model of newton, bracket search of fourier_minimum) + bitwise/decision correspondence with the implementation evaluated inside Coq (PrimFloat, vm_compute)',
+     text='For every n and interval the differentiation matrix model is antisymmetric and (odd n) circulant with zero row sums, commutes with shifts and anticommutes with reversal; the model equals the implementation bit-for-bit on every generated size. Newton: never worse than the initial guess, accepts only decreasing steps, warns whenever the returned residual exceeds 1e4*tol. fourier_minimum: first valid bracket is chosen, result <= every sample under the stated scipy oracle hypotheses, decisions invariant under cyclic shifts.',
+     note='Not proved (numeric oracle only): exact differentiation of every resolvable mode, interpolation exactness away from nodes, convergence of Newton on smooth well-posed systems; even n needs the Nyquist entry 1/tan(pi/2) to be exactly 0 (float value 6e-17).',
+     ref='DESIGN.md section 6 C20'),
 }
 checks, na = [], []
 for p in props:
